@@ -432,12 +432,17 @@ def stream_numerals(ctx, thorough):
             jobs.append((30, 3, u))
         for u in ["k", "M", "G"]:
             jobs.append((4, 4, u))
-    exprs = [f"map (fun n => parse_humanized (n ++ {lit(u)})) (numerals {C.z(na)} {k}%nat)" for na, k, u in jobs]
+    exprs = [f"rle_deltas (map (fun n => parse_humanized (n ++ {lit(u)})) (numerals {C.z(na)} {k}%nat))" for na, k, u in jobs]
     model = eval_exprs(ctx, exprs, "numerals")
     tally = Tally(ctx, "numerals")
     n_integral = 0
-    for (na, k, u), mres in zip(jobs, model):
+    for (na, k, u), rle in zip(jobs, model):
         strings = [f"{a}.{f:0{k}d}{u}" if k else f"{a}.{u}" for a in range(na) for f in range(10 ** k)]
+        mres, prev = [], 0           # decode the lossless run-length encoding of successive differences (-1 = None)
+        for d, cnt in rle:
+            for _ in range(cnt):
+                prev += d
+                mres.append(None if prev == -1 else ("Some", prev))
         if len(mres) != len(strings):
             raise C.ModelEvalError("numerals stream: length mismatch between generators")
         for t, mv in zip(strings, mres):
